@@ -21,6 +21,24 @@ CLAIMS: dict[str, tuple[str, str, str, str]] = {
         'conversions (value arithmetic). Axioms: durations are >= 0; x - floor(x) in [0,1). '
         'Trusted: CPython ast, re._parser.',
         'DESIGN.md section 4, C19'),
+    'C05': (
+        'Jinja2 template-AST analysis with an XML-context tokenizer + sanitiser-strength rules',
+        'All nine .mpd templates, the patch template and the files they include are parsed (never '
+        'rendered); each of the ~500 output expressions gets its lexical XML context, filter '
+        'chain and guard stack. For every stored string, query value and Host header at once: an '
+        'expression that can carry such text must reach element content / attribute values only '
+        'through a sanitiser whose strength (read from the body of xmlSafe on every run) covers '
+        'what that context needs, or through a formatter with an XML-inert alphabet, or be '
+        'numeric / fixed vocabulary by the field table or a class annotation; |safe in '
+        'autoescaped files only on known producers; xs:duration / xs:dateTime / unsigned-int '
+        'attributes must use their lexical formatter; attributes required for MPD@type must be '
+        'emitted on every mode branch the manifest supports; URL templates may only use DASH '
+        'identifiers; URL text is escaped exactly once.',
+        'Not decided: uniqueness of ids, non-empty AdaptationSets, non-negative durations '
+        '(run-time values). Trusted: the Jinja2 parser; Flask\'s autoescape-by-extension rule '
+        '(restated); the field table (free text vs numeric vs vocabulary vs file-derived), where '
+        'anything not listed and not annotated numeric is treated as free text.',
+        'DESIGN.md section 4, C05'),
     'C07': (
         'static option-registry reconstruction + parser/formatter summaries compared as inverse pairs',
         'The registry of DashOption objects is rebuilt from the source (all constructions, the error '
